@@ -493,19 +493,14 @@ func pairWorker(w *pool.W, arg json.RawMessage) {
 			continue
 		}
 		n++
-		runWithOrder(a.Src, map[string]int{}, nil)
-		got := runWithOrder(b.Src, map[string]int{}, nil)
-		if got == solo {
-			continue
-		}
-		// confirm in a brand-new process that runs only A then B, and name the carrier
+		// every pair runs in a brand-new process (A then B, nothing else), so the verdict does not
+		// depend on what this worker happened to run before
 		pr, err := selfExec(execSpec{Progs: []string{a.Name, bname}, Trace: true})
 		if err != nil {
 			w.Emit(rec{Kind: "fail", Key: "harness:pair-exec", Clause: "harness", Detail: fmt.Sprint(err)})
 			continue
 		}
 		if pr.Obs == solo {
-			// the difference came from earlier pairs in this worker, not from A: it is found when that program's turn comes
 			continue
 		}
 		// carriers: package-level locations A wrote, B read before overwriting, and whose value at
